@@ -181,6 +181,34 @@ def e2e(ctx):
                               f"a path of check_stop is stopped by an unsupported feature ({tag}) at call depth {depth} "
                               f"but the test is reported PASS without any warning",
                               {"stopper": tag, "depth": depth, "stdout": run.stdout[-600:]})
+    # the SAME unsupported point reached by several tests of one contract: setUp CREATEs a helper whose deployed code is one
+    # symbolic byte (init code returns the low byte of a word made by svm.createUint256, appended to the init code as a
+    # constructor argument), so executing the helper stops at "symbolic opcode at pc=0"; every test that calls it must be
+    # reported non-PASS / warned — the second and third visit of that pc (same shared Contract object) like the first
+    init = asm.assemble([("push", 1), ("push", 12 + 31, 1), ("push", 0, 1), "CODECOPY", ("push", 1), ("push", 0, 1), "RETURN"], push0=False)
+    if len(init) == 12:
+        setup_sym = (asm.svm_create_uint256(b"c") + [("push", 32), "MSTORE",                      # mem[32..64) = symbolic word
+                     ("push", int.from_bytes(init, "big"), 12), ("push", 0), "MSTORE",            # mem[20..32) = init code
+                     ("push", 44), ("push", 20), ("push", 0), "CREATE", ("push", 0), "SSTORE"])   # slot 0 = helper address
+        call_helper = [("push", 0), ("push", 0), ("push", 0), ("push", 0), ("push", 0), ("push", 0), "SLOAD", "GAS", "CALL", "POP", "STOP"]
+        for ntests in (2, 3):
+            fns = [Fn("setUp()", setup_sym)] + [Fn(f"check_visit{i}(uint256 n)", list(call_helper)) for i in range(ntests)]
+            try:
+                run = run_contract_offline(TestContract("SymOpT", fns))
+            except Exception as e:  # noqa: BLE001
+                ctx.note(f"symbolic-opcode case error: {type(e).__name__}: {e}")
+                continue
+            ctx.case(("e2e-symbolic-opcode-revisited", ntests))
+            text = " ".join(run.warnings) + " " + run.stdout
+            for i, r in enumerate(x for x in run.results if "check_visit" in x.name):
+                ctx.count(f"e2e:symbolic-opcode:visit{i}:exit{r.exitcode}")
+                if r.exitcode == 0:
+                    ctx.violation(f"C10|e2e|clean-PASS-with-stuck-path|symbolic-opcode|visit{min(i, 1)}",
+                                  f"{r.name} calls a helper whose code is a symbolic byte (execution stops at 'symbolic opcode at pc=0'); "
+                                  f"it is test #{i} of the contract to reach that pc and is reported PASS",
+                                  {"visit": i, "tests": ntests, "stdout": run.stdout[-800:]})
+    else:
+        ctx.note(f"symbolic-opcode case skipped: init code is {len(init)} bytes")
     # setUp with a symbolic-count loop (via a symbolic value created in setUp)
     setup_body = (asm.svm_create_uint256(b"s") + [("push", 7), "AND", ("label", "st"), "DUP1", "ISZERO", ("ref", "se"), "JUMPI",
                                                   ("push", 1), "SWAP1", "SUB", ("ref", "st"), "JUMP", ("label", "se"), "POP"])
